@@ -82,7 +82,7 @@ def Coll.search (E : Env) (c : Coll) (field : String) (op : Option Op) (probe : 
       | none =>
         -- searchAll: validate field, probe type, operator and pattern before scanning
         match descPos? l.descs field with
-        | none => (c, Search.failed .unknownField)
+        | none => (c, Search.failed .keyType)      -- resolvable but not a leaf: a structure
         | some (pos, d) =>
           match d.cast with
           | none => (c, Search.failed .keyType)
